@@ -8,7 +8,7 @@ MODEL_FILES = 'CoreDefs.v (cJSON_Duplicate, cJSON_Duplicate_rec, cJSON_Delete), 
 RULE = ('random trees with reference nodes and constant keys built by histories, duplicated (recursively and not) at random points; the copy must dump like the source with the '
         'reference bits cleared and no sibling links, the implementation side checks pointer-disjointness of every owned block of source and copy; the histories then go on '
         'editing / deleting either tree and every live root is re-dumped after every call (the untouched tree must not change); ledger after every call; plus chains of depth '
-        'CJSON_CIRCULAR_LIMIT-1 … +3 and hand-built 1-/2-/3-cycles duplicated on a thread with a 2 MB stack (NULL, ledger restored, source depth unchanged); '
+        'CJSON_CIRCULAR_LIMIT-1 … +3, containers with about CJSON_CIRCULAR_LIMIT children (flat and a few levels down: the limit bounds depth, not width) and hand-built 1-/2-/3-cycles duplicated on a thread with a 2 MB stack (NULL, ledger restored, source depth unchanged); '
         'verdict = python list model / analytic expectation for the deep cases')
 ASSUMPTIONS = ['histories respect the documented ownership rules', 'hand-written transliteration validated by this differential run',
                'deep and cyclic cases are judged on the implementation by the verdict; the extracted model runs them only in the thorough tier (Heap.v set union is linear)']
@@ -17,9 +17,9 @@ def corpus(ctx): return load_corpus(ctx['verif'], 'C11')
 
 def dup_directed():
     """one tree with every ownership feature, duplicated, then each tree edited while the other is watched"""
-    # handles: 0 obj, 1 arr, 2 num, 3 str, 4 true, 5 string reference, 6 obj, 7 num (member of 6), 8 array reference to 1, 9 raw
+    # handles: 0 obj, 1 arr, 2 num, 3 str, 4 true, 5 string reference, 6 obj, 7 num (member of 6), 8 array reference to 7, 9 raw
     build = ('obj;arr;num:3ff8000000000000;add:1:2;str:x76616c;add:1:3;addo:0:x6c697374:1;true;addcs:0:x636b:4;'
-             'sref:x72656673;addo:0:x7372:5;obj;anum:6:x6e:4000000000000000;addrefo:0:x726f:6;aref:1;addo:0:x6172:8;raw:x7b7d;addo:0:x72:9')
+             'sref:x72656673;addo:0:x7372:5;obj;anum:6:x6e:4000000000000000;addrefo:0:x726f:6;aref:7;addo:0:x6172:8;raw:x7b7d;addo:0:x72:9')
     tails = ['dup:0:1;del:0;size:10;geto:10:x6c697374;each:11',
              'dup:0:1;del:10;size:0;each:1',
              'dup:0:1;sets:3:x61206d756368206c6f6e6765722076616c7565;setn:2:4024000000000000;delocs:0:x636b;size:10',
@@ -36,7 +36,7 @@ def generate(ctx):
     rng = random.Random(ctx['seed'] * 15487469 + 11)
     quick = ctx['tier'] == 'quick'
     limit = coregen.circular_limit(ctx['repo'])
-    cases = dup_directed() + coregen.deep_cases(limit, model_too=() if quick else ('cycle1', 'chain:limit+2'))
+    cases = dup_directed() + coregen.deep_cases(limit, model_too=() if quick else ('cycle1', 'chain:limit+2')) + coregen.wide_cases(limit)
     n = 300 if quick else 5000
     for i in range(n):
         nops = 40 if quick else rng.choice([20, 40, 80, 160])
